@@ -253,7 +253,37 @@ func (ev *evaluator) ident(name string) Val {
 			return *found
 		}
 		if cnt > 1 {
-			// choose the phi in the innermost loop header with a contract invariant: ambiguous
+			// several merge points define the variable: the one in force at the instruction being
+			// executed is the latest definition (phi or assignment) that dominates it
+			if f.curIns != nil && f.curIns.Block() != nil {
+				cb, ci := f.curIns.Block(), instrIndex(f.curIns)
+				var best *Val
+				bd, bi := -1, -1
+				consider := func(v Val, b *ssa.BasicBlock, idx int) {
+					if b != cb && !b.Dominates(cb) {
+						return
+					}
+					if b == cb && idx >= ci {
+						return
+					}
+					d := domDepth(b)
+					if d > bd || (d == bd && idx > bi) {
+						vv := v
+						best, bd, bi = &vv, d, idx
+					}
+				}
+				for k, v := range f.vals {
+					if phi, ok := k.(*ssa.Phi); ok && phi.Comment == name {
+						consider(v, phi.Block(), -1)
+					}
+				}
+				for _, d := range f.dbgAll[name] {
+					consider(d.v, d.blk, d.idx)
+				}
+				if best != nil {
+					return *best
+				}
+			}
 			return ev.fail("identifier %s is ambiguous (several phi nodes)", name)
 		}
 		if p, ok := f.names["&"+name]; ok {
@@ -275,6 +305,9 @@ func (ev *evaluator) ident(name string) Val {
 		}
 		if f.parent == nil {
 			break
+		}
+		if f.fn != nil && f.parent.fn != nil && f.fn.Parent() == f.parent.fn {
+			continue // a function literal inlined into its enclosing function: lexical scope
 		}
 		break // do not look into callers' scopes
 	}
@@ -689,6 +722,15 @@ func (ev *evaluator) call(e *Expr) Val {
 			t = sApp("s_base", x.S)
 		}
 		return boolVal("(> (root " + t + ") " + h0 + ")")
+	case "heapnow":
+		return intVal(r.get(ev.st, "g|$heap"))
+	case "newer":
+		x, h := arg(0), arg(1)
+		t := ev.term(x)
+		if x.K == KSlice {
+			t = sApp("s_base", x.S)
+		}
+		return boolVal("(> (root " + t + ") " + h.S + ")")
 	case "allocated":
 		// the reference denotes an object that exists in the current state
 		x := arg(0)
@@ -764,6 +806,14 @@ func (ev *evaluator) call(e *Expr) Val {
 			r.facts.Assert(fmt.Sprintf("(=> (= (s_len %s) 1) (= %s (char_str (select (select %s (s_base %s)) (s_off %s)))))", x.S, t, r.get(ev.st, key), x.S, x.S))
 		}
 		return Val{K: KStr, T: types.Typ[types.String], S: t}
+	case "str_prefix":
+		x, n := arg(0), arg(1)
+		if x.K != KSlice || x.T == nil {
+			ev.fail("str_prefix of non-slice")
+		}
+		et := x.T.Underlying().(*types.Slice).Elem()
+		key := r.elemKey(et)
+		return Val{K: KStr, T: types.Typ[types.String], S: fmt.Sprintf("(bytes2str (select %s (s_base %s)) (s_off %s) %s)", r.get(ev.st, key), x.S, x.S, n.S)}
 	case "domain":
 		x := arg(0)
 		if x.K == KRef && x.T != nil {
